@@ -64,6 +64,10 @@ pub fn run(args: &Args) {
             Handle { cache: Cache::new(path, interval, ignore_pre).unwrap(), interval, ignore_pre }
         };
         let mut handles = vec![mk(&mut r, &path)];
+        // one to three handles on the file from the start (a handle may keep state of its own between calls)
+        for _ in 0..r.below(3) { let h = mk(&mut r, &path); handles.push(h); }
+        // earlier store / tags operations, with the handle that issued them: replayed verbatim later (A-B-A histories)
+        let mut past: Vec<(usize, RegistryType, String, Value)> = vec![];
         // a small key pool per history so that operations collide
         let nk = 2 + r.below(3);
         let keys: Vec<(RegistryType, String)> = (0..nk).map(|i| {
@@ -74,20 +78,35 @@ pub fn run(args: &Args) {
         for _ in 0..steps {
             now += *r.pick(&[0i64, 0, 1, 1, 500, 29_999, 30_000, 30_001, 86_400_000, 999]);
             verif_hooks::set_clock(Some(now));
-            let hi = r.below(handles.len());
-            let (reg, name) = keys[r.below(keys.len())].clone();
+            let mut hi = r.below(handles.len());
+            let (mut reg, mut name) = keys[r.below(keys.len())].clone();
+            let mut kind = r.below(100);
+            // one step in five repeats an earlier write verbatim, mostly on the handle that issued it
+            let mut echo: Option<Value> = None;
+            if !past.is_empty() && r.chance(1, 5) {
+                let (h0, reg0, name0, op0) = past[r.below(past.len())].clone();
+                if h0 < handles.len() && r.chance(3, 4) { hi = h0; }
+                reg = reg0; name = name0;
+                kind = if op0["op"] == "store" { 0 } else { 30 };
+                echo = Some(op0);
+            }
             let regs = reg.as_str();
-            let kind = r.below(100);
             let res = catch_unwind(AssertUnwindSafe(|| -> (Value, Value) {
                 let h = &handles[hi];
                 if kind < 28 {
                     let n = r.below(5);
-                    let vs: Vec<String> = (0..n).map(|_| r.pick(VERSIONS).to_string()).collect();
+                    let vs: Vec<String> = match &echo {
+                        Some(op0) => op0["vs"].as_array().unwrap().iter().map(|x| x.as_str().unwrap().to_string()).collect(),
+                        None => (0..n).map(|_| r.pick(VERSIONS).to_string()).collect(),
+                    };
                     let ret = h.cache.replace_versions(reg, &name, vs.clone()).is_ok();
                     (json!({"op": "store", "reg": regs, "name": name, "vs": vs, "now": now}), json!(ret))
                 } else if kind < 40 {
                     let mut m = HashMap::new();
-                    for _ in 0..r.below(4) { m.insert(r.pick(TAGS).to_string(), r.pick(VERSIONS).to_string()); }
+                    match &echo {
+                        Some(op0) => for kv in op0["m"].as_array().unwrap() { m.insert(kv[0].as_str().unwrap().to_string(), kv[1].as_str().unwrap().to_string()); },
+                        None => for _ in 0..r.below(4) { m.insert(r.pick(TAGS).to_string(), r.pick(VERSIONS).to_string()); },
+                    }
                     let ret = h.cache.save_dist_tags(reg, &name, &m).is_ok();
                     let mut ml: Vec<(String, String)> = m.into_iter().collect();
                     ml.sort();
@@ -130,6 +149,7 @@ pub fn run(args: &Args) {
                 }
             }));
             let (op, ret) = match res { Ok(x) => x, Err(_) => (json!({"op": "panic"}), json!("panic")) };
+            if op["op"] == "store" || op["op"] == "tags" { past.push((hi, reg, name.clone(), op.clone())); }
             ops.push(op);
             outs.push(json!({"ret": ret, "db": raw_tables(&path)}));
             // reopen / add a handle / drop a handle
@@ -144,6 +164,29 @@ pub fn run(args: &Args) {
                 ops.push(json!({"op": "reopen"}));
                 outs.push(json!({"ret": true, "db": raw_tables(&path)}));
             }
+        }
+        // closing sweep: every key of the pool is read back in full through a random handle (versions, every tag name the
+        // history wrote for it, latest), so that whatever the history did wrong is seen by a read
+        for (reg, name) in keys.iter() {
+            let regs = reg.as_str();
+            let h = &handles[r.below(handles.len())];
+            let ret = VersionStorer::get_versions(&h.cache, *reg, name).ok().map(sorted);
+            ops.push(json!({"op": "versions", "reg": regs, "name": name}));
+            outs.push(json!({"ret": ret, "db": raw_tables(&path)}));
+            let mut tagnames: Vec<String> = vec![];
+            for (_, reg0, name0, op0) in past.iter() {
+                if reg0 == reg && name0 == name && op0["op"] == "tags" {
+                    for kv in op0["m"].as_array().unwrap() { let t = kv[0].as_str().unwrap().to_string(); if !tagnames.contains(&t) { tagnames.push(t); } }
+                }
+            }
+            for t in tagnames {
+                let ret = match VersionStorer::get_dist_tag(&h.cache, *reg, name, &t) { Ok(v) => json!({"ok": v}), Err(_) => json!("err") };
+                ops.push(json!({"op": "dist_tag", "reg": regs, "name": name, "tag": t}));
+                outs.push(json!({"ret": ret, "db": raw_tables(&path)}));
+            }
+            let ret = match h.cache.get_latest_version(*reg, name) { Ok(v) => json!({"ok": v}), Err(_) => json!("err") };
+            ops.push(json!({"op": "latest", "reg": regs, "name": name, "ignore_pre": h.ignore_pre}));
+            outs.push(json!({"ret": ret, "db": raw_tables(&path)}));
         }
         verif_hooks::set_clock(None);
         emit(json!({"ops": ops}), json!({"steps": outs}));
